@@ -148,7 +148,8 @@ func TheoryPrelude(m Mode) string {
 		// seqidA names a byte sequence by its CONTENT: equal bytes, equal name (assumed: this is what the symbol stands for;
 		// a model is any injective encoding of finite byte strings as integers)
 		b.WriteString("(assert (forall ((a (Array Int Int)) (oa Int) (b (Array Int Int)) (ob Int) (n Int)) (! (=> (forall ((q Int)) (! (=> (and (<= oa q) (< q (+ oa n))) (= (select a q) (select b (+ (- q oa) ob)))) :pattern ((select a q)))) (= (seqidA a oa n) (seqidA b ob n))) :pattern ((seqidA a oa n) (seqidA b ob n)))))\n")
-		b.WriteString("(declare-fun seqOfStr (Str) Int)\n")
+		b.WriteString("(declare-fun seqOfStr (Str) Int)\n(declare-fun strOfSeq (Int) Str)\n")
+		b.WriteString("(assert (forall ((s Int)) (! (= (seqOfStr (strOfSeq s)) s) :pattern ((strOfSeq s)))))\n")
 		// BLS12-381 layer
 		var t48, t32 []string
 		for k := 0; k < 48; k++ {
